@@ -65,7 +65,11 @@ func (r *c04Reg) report(xs []c04Inst) {
 }
 
 func (r *c04Reg) Name() string                                     { return c04RegName }
-func (r *c04Reg) Notify() <-chan *serviceregistry.RegistryEvent    { return r.notify }
+func (r *c04Reg) Notify() <-chan *serviceregistry.RegistryEvent {
+	r.mu.Lock()
+	defer r.mu.Unlock()
+	return r.notify
+}
 func (r *c04Reg) ApplyServiceInstances(m map[string]*serviceregistry.ServiceInstanceSpec) error {
 	return nil
 }
@@ -164,6 +168,7 @@ type c04WatchIn struct {
 	Init   []c04Inst  `json:"init"`
 	After1 *[]c04Inst `json:"after1,omitempty"` // content right after listing #1 (the pool's initial listing) was answered
 	After2 *[]c04Inst `json:"after2,omitempty"` // content right after listing #2 (the watcher's priming listing) was answered
+	Late   bool       `json:"late,omitempty"`   // the pool is created BEFORE the registry driver registers (after1/after2/fail unused)
 	Fail   []int      `json:"fail"`             // ordinals of listings that fail
 	Steps  []c04WStep `json:"steps"`
 	Seed   int64      `json:"seed"`
@@ -311,17 +316,22 @@ func c04RunWatch(t *testing.T, in c04WatchIn) (obs c04WatchObs) {
 		reg.fail[n] = true
 	}
 	reg.set(in.Init)
-	reg.onListed = func(n int) {
-		// forced interleavings of the pool's start-up sequence
-		if n == 1 && in.After1 != nil {
-			reg.set(*in.After1)
+	if in.Late {
+		in.After1, in.After2 = nil, nil
+		reg.fail = map[int]bool{}
+	} else {
+		reg.onListed = func(n int) {
+			// forced interleavings of the pool's start-up sequence
+			if n == 1 && in.After1 != nil {
+				reg.set(*in.After1)
+			}
+			if n == 2 && in.After2 != nil {
+				reg.set(*in.After2)
+			}
 		}
-		if n == 2 && in.After2 != nil {
-			reg.set(*in.After2)
+		if err := c04SR.RegisterRegistry(reg); err != nil {
+			t.Fatal(err)
 		}
-	}
-	if err := c04SR.RegisterRegistry(reg); err != nil {
-		t.Fatal(err)
 	}
 	defer c04SR.DeregisterRegistry(c04RegName)
 
@@ -358,6 +368,18 @@ func c04RunWatch(t *testing.T, in c04WatchIn) (obs c04WatchObs) {
 		obs.Points = append(obs.Points, c04WPoint{NRep: nrep, List: c04SortedList(sp)})
 	}
 	wantListed := 2
+	if in.Late {
+		// "first try to use service failed (will try again)": the pool's watcher is parked until the
+		// driver registers; the driver then registers and reports its content (first sync)
+		wantListed = 0
+		settle(wantListed)
+		if err := c04SR.RegisterRegistry(reg); err != nil {
+			t.Fatal(err)
+		}
+		reg.report(in.Init)
+		reg.notify <- &serviceregistry.RegistryEvent{UseReplace: true, Replace: c04RegMap(in.Init, "svc")}
+		wantListed++
+	}
 	settle(wantListed)
 	var cur []c04Inst
 	if in.After2 != nil {
@@ -376,6 +398,28 @@ func c04RunWatch(t *testing.T, in c04WatchIn) (obs c04WatchObs) {
 		reg.mu.Unlock()
 		switch st.Kind {
 		case "replace":
+			reg.report(st.Set)
+			reg.notify <- &serviceregistry.RegistryEvent{UseReplace: true, Replace: c04RegMap(st.Set, "svc")}
+			wantListed++
+		case "rereg":
+			// driver reload: drain (a report of the unchanged content), deregister, register again, and
+			// the new generation reports its content (first sync)
+			reg.set(prev)
+			reg.report(prev)
+			reg.notify <- &serviceregistry.RegistryEvent{UseReplace: true, Replace: c04RegMap(prev, "svc")}
+			wantListed++
+			wait(wantListed)
+			c04SR.DeregisterRegistry(c04RegName) // its clean event lists the watched services once more
+			wantListed++
+			wait(wantListed)
+			reg.mu.Lock()
+			reg.notify = make(chan *serviceregistry.RegistryEvent, 100)
+			reg.skip = 0
+			reg.mu.Unlock()
+			if err := c04SR.RegisterRegistry(reg); err != nil {
+				t.Fatal(err)
+			}
+			reg.set(st.Set)
 			reg.report(st.Set)
 			reg.notify <- &serviceregistry.RegistryEvent{UseReplace: true, Replace: c04RegMap(st.Set, "svc")}
 			wantListed++
@@ -597,6 +641,18 @@ func c04GenWatch(r *vfRand, adv bool) c04WatchIn {
 		if r.Chance(1, 5) { // a full replace / delete that leaves the watched service without instances
 			in.Steps[len(in.Steps)-1] = c04WStep{Set: []c04Inst{}, Kind: r.PickStr("replace", "replaceother", "apply")}
 		}
+	}
+	if r.Chance(1, 5) || (adv && r.Chance(1, 3)) { // pool created before the driver registers
+		in.Late = true
+		in.After1, in.After2, in.Fail = nil, nil, nil
+		if r.Chance(2, 3) {
+			in.Init = c04GenSet(r, &next, true)
+		}
+	}
+	if r.Chance(1, 5) || (adv && r.Chance(1, 3)) { // driver reload in the middle of the history
+		st := c04WStep{Set: c04GenSet(r, &next, r.Chance(2, 3)), Kind: "rereg"}
+		at := r.Intn(len(in.Steps) + 1)
+		in.Steps = append(in.Steps[:at], append([]c04WStep{st}, in.Steps[at:]...)...)
 	}
 	in.Seed = int64(r.Intn(1 << 30))
 	m := r.Range(1, 6)
